@@ -1,5 +1,6 @@
 (** C09 - ROUTER labels inbound messages with the true sender and routes by first frame.  Property theorems only. *)
 From ZV Require Import Base.Bytes Base.Res Model.Codec Model.World Proofs.SocketProofs.
+From ZV Require Proofs.WorldStreamDefs Proofs.RouterStream.
 
 (** whatever the fair queue yields from connection k is returned prefixed with k's identity (the
     announced one, else the unique one assigned to the connection), remaining frames unmodified *)
@@ -32,3 +33,33 @@ Theorem C09_route_unknown_bytes : forall w id rest, w_type w = ROUTER -> rest <>
   exists e, step w (OSend (id :: rest)) = ([BSendErr e None], w).
 Proof. exact router_route_by_bytes_unknown. Qed.
 Print Assumptions C09_route_unknown_bytes.
+
+(** over whole histories, at the API level of the socket model: a ROUTER with any number of connected peers
+    (identities assigned by the socket), any interleaving of arrivals in any chunking, closes and recv
+    calls.  Every message recv returns is labelled with an attached connection ... *)
+Theorem C09_history_labels : forall cs ops from m,
+  NoDup cs -> Forall RouterStream.traffic_op ops ->
+  In (BRecv from m) (World.run (WorldStreamDefs.attached ROUTER cs) ops) -> exists k, from = Some k /\ In k cs.
+Proof. exact RouterStream.router_recv_labels. Qed.
+Print Assumptions C09_history_labels.
+
+(** ... the messages labelled k are a prefix of the messages k's byte stream contains, in order, each once
+    (the label is the TRUE sender: no message of another connection ever carries it) ... *)
+Theorem C09_history_true_sender_in_order : forall cs ops k,
+  NoDup cs -> In k cs -> Forall RouterStream.traffic_op ops ->
+  WorldStreamDefs.is_prefix_of
+    (RouterStream.msgs_from k (World.run (WorldStreamDefs.attached ROUTER cs) ops))
+    (RouterStream.messages_of (WorldStreamDefs.expected (WorldStreamDefs.chunks_of k (RouterStream.evs_of ops))
+                                                         (WorldStreamDefs.closed_of k (RouterStream.evs_of ops)))).
+Proof. exact RouterStream.router_recv_in_order. Qed.
+Print Assumptions C09_history_true_sender_in_order.
+
+(** ... and when a recv parks, every connection's messages have all been returned under its label *)
+Theorem C09_history_complete : forall cs ops k,
+  NoDup cs -> In k cs -> Forall RouterStream.traffic_op ops ->
+  last (World.run (WorldStreamDefs.attached ROUTER cs) (ops ++ [ORecv])) BRecvPending = BRecvPending ->
+  RouterStream.msgs_from k (World.run (WorldStreamDefs.attached ROUTER cs) (ops ++ [ORecv])) =
+  RouterStream.messages_of (WorldStreamDefs.expected (WorldStreamDefs.chunks_of k (RouterStream.evs_of ops))
+                                                      (WorldStreamDefs.closed_of k (RouterStream.evs_of ops))).
+Proof. exact RouterStream.router_recv_complete. Qed.
+Print Assumptions C09_history_complete.
